@@ -107,6 +107,14 @@ func TestWriteRegressions(t *testing.T) {
 		c := &StreamCase{Batches: []Batch{MetricsBatch(md)}}
 		kit.SaveReplay(filepath.Join(dir, "C08", "d3-zero-first-list-columns.json"), "C08", "all-zero first values of a list column", c)
 	}
+	for _, sig := range []string{Traces, Logs, Metrics} {
+		// D14: after a valid prefix, a copy of the main payload relabelled as a
+		// related type: the second read on the sub-stream freed the main record
+		// that was then decoded
+		ty := map[string]int32{Traces: 42, Logs: 31, Metrics: 12}[sig]
+		seg := Segment{Batches: []Batch{bareBatch(sig, 0), bareBatch(sig, 1)}, Faults: []Fault{{Kind: "dup_relabel", I: 0, Type: ty}}}
+		kit.SaveReplay(filepath.Join(dir, "C07", fmt.Sprintf("d14-%s-main-payload-duplicated-and-relabelled.json", sig)), "C07", "main record released before it is decoded", &FaultCase{Segments: []Segment{seg}})
+	}
 	for _, v := range []int{0, 1, 2, 3, 4} {
 		v := v
 		c := &StreamCase{Options: Options{OrderAttrs32By: &v}, Batches: []Batch{TracesBatch(orderingProbe()), TracesBatch(orderingProbe())}}
